@@ -15,19 +15,13 @@ Definition bytes_ok (l : list N) : Prop := Forall (fun b => b < 256) l.
 Definition len_ok (l : list N) : Prop := N.of_nat (length l) < 65536.
 
 (* RFC 4271 s4.3 path segments (four-octet AS numbers, RFC 6793): a sequence of
-   <type 1..4, count, count AS numbers>, exactly filling the value. *)
+   <type 1..4, count, count AS numbers>, exactly filling the value; RFC 7606 s7.2:
+   a segment carries at least one AS.  AS4_PATH (RFC 6793 s6) has the same shape. *)
 Inductive wf_as_path : list N -> Prop :=
 | wfp_nil : wf_as_path []
 | wfp_seg : forall t n body rest,
-    1 <= t <= 4 -> n < 256 -> length body = (4 * N.to_nat n)%nat ->
-    wf_as_path rest -> wf_as_path (t :: n :: body ++ rest).
-
-(* RFC 6793 s6: AS4_PATH segments additionally carry at least one AS *)
-Inductive wf_as4_path : list N -> Prop :=
-| wf4_nil : wf_as4_path []
-| wf4_seg : forall t n body rest,
     1 <= t <= 4 -> 0 < n < 256 -> length body = (4 * N.to_nat n)%nat ->
-    wf_as4_path rest -> wf_as4_path (t :: n :: body ++ rest).
+    wf_as_path rest -> wf_as_path (t :: n :: body ++ rest).
 
 (* the Optional / Transitive bits are fixed by the attribute's definition *)
 Definition class_bits_ok (code flags : N) : Prop :=
@@ -47,13 +41,16 @@ Definition wf_data (code : N) (d : adata) : Prop :=
            | DBin b =>
                bytes_ok b /\ len_ok b /\
                (if code =? AS_PATH then wf_as_path b
+                (* 4 octets on the wire; 16 is how the API's NextHop message hands an IPv6 next hop to
+                   local_path, which turns it into the path's next hop and never stores the attribute *)
                 else if code =? NEXTHOP then length b = 4%nat \/ length b = 16%nat
                 else if code =? ATOMIC_AGGREGATE then b = []
                 else if code =? AGGREGATOR then length b = 8%nat
-                else if (code =? COMMUNITY) || (code =? CLUSTER_LIST) then Nat.modulo (length b) 4 = 0%nat
-                else if code =? EXTENDED_COMMUNITY then Nat.modulo (length b) 8 = 0%nat
-                else if code =? LARGE_COMMUNITY then Nat.modulo (length b) 12 = 0%nat
-                else if code =? AS4_PATH then wf_as4_path b /\ b <> []
+                (* RFC 7606 s7.8/7.10/7.14, RFC 8092 s5: a non-zero multiple of the element size *)
+                else if (code =? COMMUNITY) || (code =? CLUSTER_LIST) then b <> [] /\ Nat.modulo (length b) 4 = 0%nat
+                else if code =? EXTENDED_COMMUNITY then b <> [] /\ Nat.modulo (length b) 8 = 0%nat
+                else if code =? LARGE_COMMUNITY then b <> [] /\ Nat.modulo (length b) 12 = 0%nat
+                else if code =? AS4_PATH then wf_as_path b /\ b <> []
                 else if code =? AS4_AGGREGATOR then length b = 8%nat
                 else True)
            | _ => False
@@ -125,4 +122,36 @@ Definition api_nlri_in_range (x : api_nlri) : Prop :=
   match x with
   | PVpn _ d _ _ => api_rd_in_range d
   | _ => True
+  end.
+
+(* EVPN routes (RFC 7432 s7, RFC 9136 s3.1): what packet/src/evpn.rs decodes.  Labels
+   are 24-bit fields, the ESI is ten octets, a MAC address six, an IP-prefix route's
+   length is within the width of its prefix and its gateway is of the same family. *)
+Definition wf_ip (i : ipaddr) : Prop :=
+  match i with IP4 a => a < 2 ^ 32 | IP6 a => a < 2 ^ 128 end.
+Definition wf_esi (e : list N) : Prop := length e = 10%nat /\ bytes_ok e.
+Definition wf_label24 (l : N) : Prop := l < 16777216.
+
+Definition wf_evpn (e : evpn) : Prop :=
+  match e with
+  | EvAd d esi etag label => wf_rd d /\ wf_esi esi /\ u32_ok etag /\ wf_label24 label
+  | EvMac d esi etag mac ip l1 l2 =>
+      wf_rd d /\ wf_esi esi /\ u32_ok etag /\ (length mac = 6%nat /\ bytes_ok mac)
+      /\ match ip with Some i => wf_ip i | None => True end
+      /\ wf_label24 l1 /\ match l2 with Some l => wf_label24 l | None => True end
+  | EvImet d etag ip => wf_rd d /\ u32_ok etag /\ wf_ip ip
+  | EvEs d esi ip => wf_rd d /\ wf_esi esi /\ wf_ip ip
+  | EvPfx d esi etag pfx plen gw label =>
+      wf_rd d /\ wf_esi esi /\ u32_ok etag /\ wf_ip pfx /\ wf_ip gw
+      /\ same_family pfx gw = true /\ plen <= ip_width pfx /\ wf_label24 label
+  end.
+
+Definition api_esi_in_range (e : api_esi) : Prop :=
+  match e with Some (t, v) => u32_ok t /\ bytes_ok v | None => True end.
+Definition api_evpn_in_range (x : api_evpn) : Prop :=
+  match x with
+  | AEvAd d esi etag _ | AEvMac d esi etag _ _ _ | AEvPfx d esi etag _ _ _ _ =>
+      api_rd_in_range d /\ api_esi_in_range esi /\ u32_ok etag
+  | AEvImet d etag _ => api_rd_in_range d /\ u32_ok etag
+  | AEvEs d esi _ => api_rd_in_range d /\ api_esi_in_range esi
   end.
